@@ -19,6 +19,23 @@ pub enum Finish {
 /// Builds through the public Builder API in the supply order of `f`.
 /// Every call must succeed (facts only reference existing terms).
 pub fn via_builder(f: &Facts, finish: Finish) -> Result<Ontology, String> {
+    via_builder_opt(f, finish, false)
+}
+
+/// `via_builder` with, after every successful call, a call of the same kind that names a term
+/// which does not exist (its error is ignored, as a caller that logs and goes on would do). The
+/// resulting ontology must be the one the successful calls describe (property C15); lookups (C10)
+/// are checked on such ontologies as well.
+pub fn via_builder_with_failing_calls(f: &Facts, finish: Finish) -> Result<Ontology, String> {
+    via_builder_opt(f, finish, true)
+}
+
+fn via_builder_opt(f: &Facts, finish: Finish, failing: bool) -> Result<Ontology, String> {
+    // an id that is not a term
+    let mut absent = 9_999_993u32;
+    while f.has_term(absent) {
+        absent -= 1;
+    }
     guarded(|| -> Result<Ontology, String> {
         let mut b = Builder::new();
         b.set_hpo_version(f.version);
@@ -29,6 +46,10 @@ pub fn via_builder(f: &Facts, finish: Finish) -> Result<Ontology, String> {
         for (c, p) in &f.edges {
             b.add_parent(*p, *c)
                 .map_err(|e| format!("add_parent({p},{c}): {e}"))?;
+            if failing {
+                let _ = b.add_parent(absent, *c);
+                let _ = b.add_parent(*p, absent);
+            }
         }
         let mut b = b.connect_all_terms();
         for call in &f.ann_calls {
@@ -59,6 +80,13 @@ pub fn via_builder(f: &Facts, finish: Finish) -> Result<Ontology, String> {
                     )
                     .map_err(|e| format!("annotate_orpha: {e}"))?,
                 _ => unreachable!(),
+            }
+            if failing && call.term.is_some() {
+                let _ = match call.kind as usize {
+                    GENE => b.annotate_gene(GeneId::from(call.rec), name, HpoTermId::from_u32(absent)),
+                    OMIM => b.annotate_omim_disease(OmimDiseaseId::from(call.rec), name, HpoTermId::from_u32(absent)),
+                    _ => b.annotate_orpha_disease(OrphaDiseaseId::from(call.rec), name, HpoTermId::from_u32(absent)),
+                };
             }
         }
         let b = b
